@@ -42,7 +42,7 @@ func (Engine) Budget(tier, prop string) (int, int) {
 	if tier == "thorough" {
 		return 12000, 1500
 	}
-	return 800, 170
+	return 1600, 170
 }
 func (Engine) Describe() simcore.Description {
 	return simcore.Description{
